@@ -76,6 +76,27 @@ def history(rnd, hist_id, length):
             plan.append('op')
             ops.append({'op': 'model.snap', 'm': m, 'rebuild': True})
             plan.append('snap')
+    if rnd.random() < 0.2:
+        # a structure typed through ANOTHER structure holds data; then the other one is redefined so that the dependant keeps being
+        # correctly defined but with a typification of another shape (set <-> element <-> pair)
+        first, dep, value, second = rnd.choice([
+            ('ℬ($[0])', 'ℬ($made[-1])', {'setv': [1, 2]}, 'ℬ($[0]×$[0])'),
+            ('ℬ($[0])', '$made[-1]', 1, 'ℬℬ($[0])'),
+            ('ℬ($[0]×$[0])', 'ℬ($made[-1])', {'s': [{'tuplev': [1, 2]}]}, 'ℬ($[0])'),
+            ('ℬℬ($[0])', '$made[-1]', {'setv': [1, 2]}, 'ℬ($[0])'),
+            ('ℬ($[0])', 'ℬ($made[-1]×$made[-1])', {'s': [{'tuplev': [1, 2]}]}, 'ℬℬ($[0])'),
+            ('ℬ($[0])', 'ℬ($made[-1])', {'setv': []}, '$[0]')])
+        motif = [{'op': 'model.op', 'm': m, 'k': 'addelem', 'uid': {'idx': 0}, 'name': 'k1'}, {'op': 'model.op', 'm': m, 'k': 'addelem', 'uid': {'idx': 0}, 'name': 'k2'},
+                 {'op': 'model.op', 'm': m, 'k': 'emplace', 'type': 'structure', 'def': first},
+                 {'op': 'model.op', 'm': m, 'k': 'emplace', 'type': 'structure', 'def': dep},
+                 {'op': 'model.op', 'm': m, 'k': 'setstruct', 'uid': {'made': -1}, 'value': value},
+                 {'op': 'model.op', 'm': m, 'k': 'setexpr', 'uid': {'made': -2}, 'text': second},
+                 {'op': 'model.op', 'm': m, 'k': 'recalcall'}]
+        for op in motif:
+            ops.append(op)
+            plan.append('op')
+            ops.append({'op': 'model.snap', 'm': m, 'rebuild': True})
+            plan.append('snap')
     if shape == 'funcs' and rnd.random() < 0.5:
         # the same caller is calculated immediately before and after the body of the function it calls (directly / through another
         # function) is edited: nothing else is evaluated on this model in between
